@@ -53,7 +53,12 @@ func c04() {
 		}
 		sweeps = append(sweeps, sweep{t, 1}, sweep{t, len(t.Names)})
 	}
-	total := len(sweeps) + nRandom
+	// degenerate shapes (empty groups in every position, single name, whole table, maximal lists)
+	var degenerate []tpolicy
+	for _, tp := range c05Catalogue(ts) {
+		degenerate = append(degenerate, tp)
+	}
+	total := len(sweeps) + nRandom + len(degenerate)
 
 	var mu sync.Mutex
 	cells := map[string]int64{}
@@ -65,7 +70,11 @@ func c04() {
 		r := caseRand(run, i)
 		var t *vlib.Target
 		var p *seccomp.Policy
-		if i < len(sweeps) {
+		if i >= len(sweeps)+nRandom {
+			tp := degenerate[i-len(sweeps)-nRandom]
+			t, p = tp.t, vlib.SpecOf(tp.p, tp.t.Name).Policy()
+			run.Count("degenerate_policies", 1)
+		} else if i < len(sweeps) {
 			t = sweeps[i].t
 			names := append([]string{}, t.Names...)
 			r.Shuffle(len(names), func(a, b int) { names[a], names[b] = names[b], names[a] })
